@@ -20,8 +20,8 @@ BOUNDS = {
 CHUNK = 60
 BUDGET = {"quick": 700, "thorough": 3400}
 ASSUMPTIONS = [
-    "only the NAMED bookkeeping variables are compared (unnamed ones use hash ids); every()'s variables are not asserted (docs/functions/every.md "
-    "contradicts its own example)",
+    "only the NAMED bookkeeping variables are compared (unnamed ones use hash ids); every()'s vote (every N-th sighting of a value matches) is asserted through "
+    "match_count, the returned lines and the onmatch-gated writers next to it, its own variables are not (docs/functions/every.md contradicts its own example and the pinned test about their layout)",
     "not asserted: aggregates of absent/empty values; the value of bare count() read on a line that ends up not matching",
 ]
 
@@ -67,7 +67,10 @@ WRITERS = [
     ["->", ["==", H0, T("1")], ["=", ["v", "w"], [], H1]],
     ["->", ["==", H0, T("1")], ["=", ["v", "p2"], [], fn("pop", [], [T("s")])]],
     ["->", ["==", H1, T("9")], ["=", ["v", "p3"], [], fn("pop", [], [T("s")])]],
+    fn("every", ["ev"], [H0, T(2)]),
+    fn("every", ["eb"], [["==", H0, T("1")], T(2)]),
 ]
+EVERY_VARS = {"ev", "eb", "ev_every", "eb_every"}  # layout not asserted: docs/functions/every.md and its example disagree
 def written_var(w):
     """name of the (named) variable a writer component maintains, or None."""
     if w[0] == "=":
@@ -202,6 +205,7 @@ def run_case(case):
         bad("exception", o["exc"], None)
     else:
         gv, ev = norm(o["vars"]), norm(it.vars)
+        gv = {k: v for k, v in gv.items() if k not in EVERY_VARS}
         if gv != ev:
             keys = sorted(k for k in set(gv) | set(ev) if gv.get(k) != ev.get(k))
             bad(f"final variables {keys}", {k: gv.get(k) for k in keys}, {k: ev.get(k) for k in keys})
